@@ -220,6 +220,8 @@ type Model struct {
 	// AllowNoSpc: allocating operations may fail for lack of space/journal
 	// room and WRITE may be short; the model follows the reply.
 	AllowNoSpc bool
+	// ForceSync: the server runs with its unstable option off: every WRITE is FILE_SYNC
+	ForceSync bool
 	// statistics
 	NoSpcFollowed int
 }
@@ -237,7 +239,7 @@ func NewModel(rootFH []byte, lim Limits) *Model {
 // Clone makes a deep copy (pages are shared copy-on-write: writers replace
 // page slices, never mutate them).
 func (m *Model) Clone() *Model {
-	n := &Model{Objs: make(map[int]*MObj, len(m.Objs)), Root: m.Root, next: m.next, byFH: make(map[string]int, len(m.byFH)), Lim: m.Lim, AllowNoSpc: m.AllowNoSpc}
+	n := &Model{Objs: make(map[int]*MObj, len(m.Objs)), Root: m.Root, next: m.next, byFH: make(map[string]int, len(m.byFH)), Lim: m.Lim, AllowNoSpc: m.AllowNoSpc, ForceSync: m.ForceSync}
 	for id, o := range m.Objs {
 		c := *o
 		if o.Pages != nil {
@@ -646,6 +648,16 @@ func (m *Model) expect(op *Op) (int, effect) {
 			}
 			if r != nil {
 				m.checkAttr(d, "WRITE", o, r)
+				want := op.Stable
+				if want < 0 || want > 2 {
+					want = 0
+				}
+				if m.ForceSync {
+					want = 2
+				}
+				if r.Committed < want || r.Committed > 2 {
+					d.add("WRITE: committed level %d, requested/required %d", r.Committed, want)
+				}
 			}
 		}
 	case OpCreate, OpMkdir, OpSymlink:
